@@ -15,5 +15,7 @@ def run(rep, tier, seed):
         "composition with C06 gives the wire-level statement",
     ]
     run_contracts(rep, "contracts.ofxget", tier, seed)
+    run_contracts(rep, "contracts.ofxget_cli", tier, seed)
+    run_contracts(rep, "contracts.ofxget_discover", tier, seed)
     run_contracts(rep, "contracts.ofxget_native", tier, seed)
     replay_known_findings(rep)
